@@ -39,6 +39,14 @@ def table(job):
     os.makedirs(pkgroot, exist_ok=True)
     out = {}
     try:
+        if job.get("builtin_named_modules"):
+            # importable modules that merely share their name with a builtin used by the programs (a project with a str.py,
+            # list.py, range.py ... next to the script): nothing imports them
+            d = os.path.join(scratch, "cwd_like")
+            os.makedirs(d)
+            for n in ("str", "len", "list", "range", "sorted", "dict", "set", "print", "filter", "format", "type", "input"):
+                open(os.path.join(d, n + ".py"), "w").write("IMPORTED_BY_ACCIDENT = True\n")
+            sys.path.insert(0, d)
         w = World(scratch)
         if job.get("cwd"):
             os.chdir(job["cwd"])
